@@ -151,6 +151,8 @@ def check_sql(spec, sql):
     db_names = Counter(qual(t['schema'], t['name']) for t in T)
     got_names = Counter(s['name'] for s in tables)
     if got_names != db_names + join_names:
+        out['C18'].append(('the CREATE TABLE statements are not a permutation of the tables (one dropped or duplicated)',
+                           {'got': sorted(map(str, got_names.elements())), 'want': sorted(map(str, (db_names + join_names).elements()))}, None))
         out['C03'].append(('CREATE TABLE statements are not exactly the tables (each once) plus join tables',
                            {'got': sorted(map(str, got_names.elements())), 'want': sorted(map(str, (db_names + join_names).elements()))}, None))
         return out
